@@ -6,8 +6,11 @@ visit_on_conflict_do_nothing / _on_conflict_target; MySQL: visit_on_duplicate_ke
 object into SQL text.  Each rule below is a necessary condition of the property: the statement that reaches
 the backend must contain every SET entry of the clause, assign it to the column's real name with the column's
 type, keep the caller's compile flags for every sub-expression, and respect the backend's grammar for the
-conflict target.  The per-row parameter chain (is_upsert_set / has_upsert_bound_parameters) is C04-R5 / C12-R4
-and cache-key coverage of the clause classes is C02-R1; they are not repeated here.
+conflict target.  Of the per-row parameter chain (is_upsert_set -> has_upsert_bound_parameters -> row-at-a-time
+executemany) only the first link belongs to the sibling family and is claimed here (R7: every part of the clause
+that the backend evaluates per conflicting row is rendered with is_upsert_set=True); the detector in
+SQLCompiler.visit_bindparam and the batching decision are C04-R5 / C12-R4, cache-key coverage of the clause
+classes is C02-R1; they are not repeated here.
 """
 
 from __future__ import annotations
@@ -36,17 +39,20 @@ R = Registry(
         "rendering clauses of the upsert compilers, not the behaviour: (R1) every entry taken from the clause's SET "
         "dictionary is rendered into the list the returned text is built from, and keys matching no table column are "
         "rendered anyway or reported by a warning; (R2) an entry looked up by a table column's key is assigned to that column's NAME, and an untyped "
-        "bound value takes that column's type; (R3) every sub-expression of the clause (SET values, DO UPDATE WHERE, "
+        "bound value takes that column's type on every path from each of the loop's lookups (by key, by Column object) to the rendering; (R3) every sub-expression of the clause (SET values, DO UPDATE WHERE, "
         "conflict-target elements and predicate) is rendered with the caller's compile keywords forwarded, in every "
         "sibling compiler; (R4) the conflict target obeys the backend grammar recorded in oracles/upsert_grammar.json "
         "(SQLite: target expressions and predicate rendered inline, PostgreSQL: bare column names, both: the candidate "
         "row alias is named `excluded`); (R5) MySQL: the alias behind Insert.inserted is one memoized object, handed to "
         "the clause, which the compiler recognises by identity; (R6) MySQL: the order of a list-of-tuples argument is "
-        "recorded and is the prefix of the rendering order."
+        "recorded and is the prefix of the rendering order; (R7) every rendering of a part of the clause that the backend "
+        "evaluates once per conflicting row (SET values, DO UPDATE WHERE) is flagged is_upsert_set=True, whichever way the "
+        "keyword dictionary is built."
     ),
     not_decided=(
         "what the backend does with the rendered statement (table state, RETURNING rows, conflict arbitration); whether "
-        "PostgreSQL can infer an index from a parameterised predicate; executemany batching (C04-R5, C12-R4); cache keys "
+        "PostgreSQL can infer an index from a parameterised predicate; what the compiler does with the is_upsert_set flag "
+        "(detector and executemany batching: C04-R5, C12-R4); cache keys "
         "(C02-R1); constructor argument validation (an error is raised either way)."
     ),
 )
@@ -453,7 +459,8 @@ def _single_def(fn, e):
 
 @R.rule("C56-R2", floor=6, template="T-SIBLING",
         desc="assignment pairing in every upsert visitor: the SET dictionary is looked up by the table column's key (or the "
-             "column), the assignment target is that column's quoted NAME, and an untyped bound value takes that column's type")
+             "column), the assignment target is that column's quoted NAME, and an untyped bound value takes that column's type -- "
+             "on every CFG path (helper-inlined normal form) from each lookup of the column loop to the rendering")
 def r2(ctx):
     for m, sets in _set_members(ctx):
         f = m.f
@@ -1100,6 +1107,62 @@ def r6(ctx):
     ctx.require(n, "no upsert clause records a parameter ordering any more (dp_string_list attribute)")
 
 
+# ---------------------------------------------------------------------- C56-R7
+def _per_row_attrs(ctx) -> Dict[str, Set[str]]:
+    """{dialect: expression attributes of its DO UPDATE-like clause class that are NOT part of the conflict target}:
+    the SET dictionary and (PostgreSQL / SQLite) the DO UPDATE WHERE.  The conflict target = the expression attributes
+    every clause class of the dialect has (DO NOTHING has nothing else); a dialect with a single clause class (MySQL)
+    has no target."""
+    classes = post_values_clause_classes(ctx)
+    by: Dict[str, List[Dict[str, str]]] = defaultdict(list)
+    for c, _vn in classes:
+        d = os.path.dirname(c.module.relpath)
+        if d.startswith("dialects/"):
+            by[d.split("/")[-1]].append(dict(_traverse_table(ctx, c)))
+    out = {}
+    for d, tables in by.items():
+        common = set(tables[0])
+        for t in tables[1:]:
+            common &= set(t)
+        if len(tables) == 1:
+            common = set()
+        per_row: Set[str] = set()
+        for t in tables:
+            if any(k in SET_KINDS for k in t.values()):
+                per_row |= {a for a, k in t.items() if k in EXPR_KINDS and a not in common}
+        if per_row:
+            out[d] = per_row
+    return out
+
+
+@R.rule("C56-R7", floor=5, template="T-SIBLING",
+        desc="every rendering of a part of an upsert clause that is evaluated once per conflicting row (SET values, DO UPDATE "
+             "WHERE) passes is_upsert_set=True to self.process (as a keyword, or through the ** dictionary however it is built)")
+def r7(ctx):
+    per_row = _per_row_attrs(ctx)
+    ctx.require(len(per_row) >= 3, f"expected per-row clause parts in >= 3 dialects, found {sorted(per_row)}")
+    seen: Dict[str, Set[str]] = defaultdict(set)
+    for m in _family(ctx):
+        f = m.f
+        by_attr: Dict[str, List[ast.Call]] = defaultdict(list)
+        for c, r in m.process_calls():
+            for a in r & per_row.get(m.dialect, set()):
+                by_attr[a].append(c)
+        for a, calls in sorted(by_attr.items()):
+            seen[m.dialect].add(a)
+            bad = [c for c in calls if not _is_const(_kw_value(f.node, c, "is_upsert_set"), True)]
+            what = "SET values" if m.attrs.get(a) in SET_KINDS else "DO UPDATE ... WHERE"
+            ctx.check(not bad, f"{f.key}:per-row-part-flagged[{a}]",
+                      f"{len(bad)} of {len(calls)} rendering(s) of `{m.param}.{a}` ({what}) do not pass is_upsert_set=True "
+                      f"(`{unparse(bad[0])[:90] if bad else ''}`): a bindparam() there takes its value from each parameter set, but the "
+                      f"compiler only notices that (has_upsert_bound_parameters -> one statement per row) for parts rendered with the flag; "
+                      f"an executemany INSERT .. ON CONFLICT/DUPLICATE KEY .. RETURNING is then sent as one multi-row statement and "
+                      f"every row of the batch is judged / updated with the FIRST parameter set's value",
+                      f"{len(calls)} rendering(s) pass is_upsert_set=True", loc_of(f, (bad or calls)[0]))
+    for d, attrs in sorted(per_row.items()):
+        ctx.require(attrs <= seen[d], f"dialects/{d}: per-row clause parts {sorted(attrs - seen[d])} are not rendered by self.process(...) in any family member")
+
+
 # ---------------------------------------------------------------------- self-test battery
 PG = "dialects/postgresql/base.py"
 SL = "dialects/sqlite/base.py"
@@ -1600,3 +1663,69 @@ R.mutant("benign-mysql-replacement-result-in-new-local", MY, sub(
     "            value_text = self.process(val.self_group(), **set_kw)\n",
     "            typed_val = visitors.replacement_traverse(val, {}, replace)\n"
     "            value_text = self.process(typed_val.self_group(), **set_kw)\n"), None)
+
+# ---- str2-x: R7 (per-row parts are flagged)
+_SL_WHERE_KW = (
+    "            where_kw = dict(kw)\n"
+    "            where_kw.update(\n"
+    "                include_table=True, use_schema=False, is_upsert_set=True\n"
+    "            )\n"
+    "            action_text += \" WHERE %s\" % self.process(\n"
+    "                clause.update_whereclause, **where_kw\n"
+    "            )\n"
+    "\n"
+    "        return \"ON CONFLICT %s DO UPDATE SET %s\" % (target_text, action_text)\n"
+)
+R.mutant("seed-sqlite-update-where-not-flagged-per-row", SL,
+         sub(_SL_WHERE_KW, _SL_WHERE_KW.replace("            where_kw.update(\n                include_table=True, use_schema=False, is_upsert_set=True\n            )\n",
+                                                "            where_kw.update(include_table=True, use_schema=False)\n")), "C56-R7")
+R.mutant("pg-update-where-flag-false", PG,
+         sub(_SL_WHERE_KW, _SL_WHERE_KW.replace("is_upsert_set=True", "is_upsert_set=False")), "C56-R7")
+R.mutant("mysql-set-values-not-flagged-per-row", MY,
+         sub("        set_kw.update(use_schema=False, is_upsert_set=True)\n", "        set_kw.update(use_schema=False)\n"), "C56-R7")
+R.mutant("sqlite-residual-set-values-not-flagged-per-row", SL,
+         sub("                    coercions.expect(roles.ExpressionElementRole, v),\n                    is_upsert_set=True,\n                    **set_kw,\n",
+             "                    coercions.expect(roles.ExpressionElementRole, v),\n                    **set_kw,\n"), "C56-R7")
+R.mutant("benign-sqlite-update-where-kw-dict-display-fstring", SL,
+         sub(_SL_WHERE_KW,
+             "            where_kw = {\n"
+             "                **kw,\n"
+             "                \"include_table\": True,\n"
+             "                \"use_schema\": False,\n"
+             "                \"is_upsert_set\": True,\n"
+             "            }\n"
+             "            where_text = self.process(clause.update_whereclause, **where_kw)\n"
+             "            action_text = f\"{action_text} WHERE {where_text}\"\n"
+             "\n"
+             "        return \"ON CONFLICT %s DO UPDATE SET %s\" % (target_text, action_text)\n"), None)
+R.mutant("benign-pg-update-where-flag-by-item-store-and-alias", PG,
+         sub(_SL_WHERE_KW,
+             "            where_kw = dict(kw, include_table=True, use_schema=False)\n"
+             "            where_kw[\"is_upsert_set\"] = True\n"
+             "            render = self.process\n"
+             "            criteria = clause.update_whereclause\n"
+             "            action_text += \" WHERE %s\" % render(criteria, **where_kw)\n"
+             "\n"
+             "        return \"ON CONFLICT %s DO UPDATE SET %s\" % (target_text, action_text)\n"), None)
+R.mutant("benign-sqlite-update-where-extracted-helper", SL, chain(
+    sub("        if clause.update_whereclause is not None:\n" + _SL_WHERE_KW,
+        "        action_text += self._do_update_where(clause, **kw)\n"
+        "\n"
+        "        return \"ON CONFLICT %s DO UPDATE SET %s\" % (target_text, action_text)\n"),
+    sub("    def visit_on_conflict_do_update(self, on_conflict, **kw):\n        clause = on_conflict\n",
+        "    def _do_update_where(self, clause, **kw):\n"
+        "        if clause.update_whereclause is None:\n"
+        "            return \"\"\n"
+        "        where_kw = dict(kw)\n"
+        "        where_kw.update(\n"
+        "            include_table=True, use_schema=False, is_upsert_set=True\n"
+        "        )\n"
+        "        return \" WHERE %s\" % self.process(\n"
+        "            clause.update_whereclause, **where_kw\n"
+        "        )\n\n"
+        "    def visit_on_conflict_do_update(self, on_conflict, **kw):\n        clause = on_conflict\n")), None)
+R.mutant("benign-pg-set-values-flag-moved-into-kw-dict", PG, chain(
+    sub("        set_kw = dict(kw)\n        set_kw.update(use_schema=False)\n        for c in cols:\n            col_key = c.key\n\n            if col_key in set_parameters:\n                value = set_parameters.pop(col_key)\n            elif c in set_parameters:\n                value = set_parameters.pop(c)\n            else:\n                continue\n\n            assert",
+        "        set_kw = dict(kw)\n        set_kw.update(use_schema=False, is_upsert_set=True)\n        for c in cols:\n            col_key = c.key\n\n            if col_key in set_parameters:\n                value = set_parameters.pop(col_key)\n            elif c in set_parameters:\n                value = set_parameters.pop(c)\n            else:\n                continue\n\n            assert"),
+    sub("            value_text = self.process(\n                value.self_group(), is_upsert_set=True, **set_kw\n            )\n\n            key_text = self.preparer.quote(c.name)\n            action_set_ops.append(\"%s = %s\" % (key_text, value_text))\n\n        # check for names that don't match columns\n        if set_parameters:\n            util.warn(\n                \"Additional column names not matching \"\n                \"any column keys in table '%s': %s\"\n                % (\n                    self.current_executable.table.name,\n                    (\", \".join(\"'%s'\" % c for c in set_parameters)),\n                )\n            )\n            for k, v in set_parameters.items():\n                key_text = (\n                    self.preparer.quote(k)\n                    if isinstance(k, str)\n                    else self.process(k, use_schema=False)\n                )\n                value_text = self.process(\n                    coercions.expect(roles.ExpressionElementRole, v),\n                    is_upsert_set=True,\n                    **set_kw,\n",
+        "            value_text = self.process(value.self_group(), **set_kw)\n\n            key_text = self.preparer.quote(c.name)\n            action_set_ops.append(\"%s = %s\" % (key_text, value_text))\n\n        # check for names that don't match columns\n        if set_parameters:\n            util.warn(\n                \"Additional column names not matching \"\n                \"any column keys in table '%s': %s\"\n                % (\n                    self.current_executable.table.name,\n                    (\", \".join(\"'%s'\" % c for c in set_parameters)),\n                )\n            )\n            for k, v in set_parameters.items():\n                key_text = (\n                    self.preparer.quote(k)\n                    if isinstance(k, str)\n                    else self.process(k, use_schema=False)\n                )\n                value_text = self.process(\n                    coercions.expect(roles.ExpressionElementRole, v),\n                    **set_kw,\n")), None)
